@@ -141,33 +141,46 @@ def families(tier):
         n4 = list(range(len(R.rankings(4))))  # every partial ranking of 4 candidates (blank included)
         fam = {"n4-3types": (4, n4, 3, (1, 2)), "n5-hard20": (5, _idx(5, HARD5), 5, (2, 3))}
         fam["n4-4types-short"] = (4, [i for i, r in enumerate(R.rankings(4)) if 1 <= len(r) <= 2], 4, (1, 2, 3))
+    # thousands of single-choice ballots per candidate plus a few ballots that rank two or three: assertions for the same
+    # branch whose margins differ by one or two votes in a few thousand (difficulties within 0.1% of each other)
+    r3 = R.rankings(3)
+    singles = [i for i, r in enumerate(r3) if len(r) == 1]
+    longer = [i for i, r in enumerate(r3) if len(r) >= 2]
+    if tier != "quick":  # each RAIRE run on several thousand ballots costs ~40 ms: thorough tier only
+        fam["n3-near-equal"] = (3, longer, 2, (1, 2, 10), (singles, (1390, 1391, 4000)))
     return fam
 
 
-def weighted_profiles(types, K, W, first, part=0, parts=1):
+def weighted_profiles(types, K, W, first, part=0, parts=1, base=None):
     """profiles whose smallest type is `first`: k <= K distinct types from `types`, weights from W;
-    the enumeration is dealt round-robin into `parts` shards (load balance only)"""
+    the enumeration is dealt round-robin into `parts` shards (load balance only).  With base = (base types, base
+    weights) every assignment of base weights to the base types is added to each of them."""
     pos = types.index(first)
     rest = types[pos + 1:]
+    bases = [()]
+    if base is not None:
+        bases = [tuple(t for t, w in zip(base[0], hw) for _ in range(w)) for hw in itertools.product(base[1], repeat=len(base[0]))]
     i = 0
     for k in range(1, K + 1):
         for others in itertools.combinations(rest, k - 1):
             ts = (first,) + others
             for ws in itertools.product(W, repeat=k):
-                i += 1
-                if i % parts != part:
-                    continue
-                prof = []
-                for t, w in zip(ts, ws):
-                    prof += [t] * w
-                yield tuple(prof)
+                for b in bases:
+                    i += 1
+                    if i % parts != part:
+                        continue
+                    prof = list(b)
+                    for t, w in zip(ts, ws):
+                        prof += [t] * w
+                    yield tuple(prof)
 
 
 def weighted_shards(tier, only_full_k=None):
     out = []
-    for name, (n, types, K, W) in families(tier).items():
+    for name, f in families(tier).items():
+        n, types = f[0], f[1]
         for j, first in enumerate(types):
-            parts = 16 if (n >= 5 and j < len(types) // 2) else (4 if j < len(types) // 3 else 1)
+            parts = 16 if ((n >= 5 and j < len(types) // 2) or (len(f) > 4 and tier != "quick")) else (4 if j < len(types) // 3 else 1)
             for part in range(parts):
                 out.append(("wt", name, first, part, parts))
     return out
